@@ -207,11 +207,13 @@ def discharge(ob, timeout_ms=10000, want_model=True):
     qf = [h for h in ob.hyps if not z3.is_quantifier(h)]
     sliced = []
     for h, n in zip(ob.hyps, names):
-        if not z3.is_quantifier(h) or n is None or kw in n or "bridge" in n or "append-only" in n or n in ("valid_channel", "spec-def"):
+        al = ("clock" in ob.name or "aligned" in ob.name)
+        if not z3.is_quantifier(h) or n is None or kw in n or "bridge" in n or "append-only" in n or n in ("valid_channel", "spec-def") \
+                or (al and ("clock" in n or "aligned" in n)):
             sliced.append(h)
     t = timeout_ms
     ladder = [("full", ob.hyps, min(3000, t), 0), ("quantifier-free-hyps", qf, min(6000, t), 0), ("sliced", sliced, min(6000, t), 0),
-              ("full-long", ob.hyps, int(1.5 * t), 0)]
+              ("full-long", ob.hyps, 4 * t, 0)]
     if t > 10000:
         ladder.append(("seed7", ob.hyps, 2 * t, 7))
     tried, total = [], 0.0
